@@ -331,6 +331,8 @@ func main() {
 		fmt.Println(newBlob(payloadSpec(os.Args[2])).fp())
 	case "build":
 		os.Exit(buildMain(os.Args[2:]))
+	case "writeprobe":
+		os.Exit(writeprobeMain(os.Args[2:]))
 	case "buildseq":
 		os.Exit(buildseqMain(os.Args[2:]))
 	case "roundtrip":
